@@ -354,20 +354,22 @@ def obligations(tier):
     # length 3, concrete data, checked against fresh-interpreter constants: first call, a toggle, the SAME spec again or
     # another thunk, a second toggle, any thunk
     p0s = (0, 1, 4, 8, 15) if q else range(NTHUNK)
-    g0s = (1, 4, 6, 7) if q else range(NTOGGLE)
+    g0s = (1, 4, 6, 7)
     for p0 in p0s:
         for g0 in g0s:
             for rep in ((True,) if q else (True, False)):
+                if not rep and (p0 not in (0, 1, 4, 8, 15, 18, 19) or g0 not in (1, 4, 6, 7)):
+                    continue             # sized for the thorough tier: about 1000 paths per obligation
                 fx = {'p0': p0, 'g0': g0}
                 pre = '0 <= p2 < %d and ' % NTHUNK + ('(g1 == 0 or g1 == 1 or g1 == 4 or g1 == 7)' if q else '0 <= g1 < %d' % NTOGGLE)
                 if rep:
                     fx['p1'] = p0
                 else:
-                    pre += ' and 0 <= p1 < %d' % NTHUNK
+                    pre += ' and (p1 == 0 or p1 == 1 or p1 == 4 or p1 == 8 or p1 == 15 or p1 == 19)'
                 obs.append(Ob(history_concrete, fixed=fx, pre=pre, name='history_concrete_%d_g%d_%s' % (p0, g0, 'rep' if rep else 'any'),
                               timeout=200 if rep else 1800, path_timeout=60))
     if not q:
-        for p0 in range(NTHUNK):
+        for p0 in (0, 1, 4, 8, 12, 15, 16, 18, 19):
             for p1 in (0, 1, 4, 8):
                 obs.append(Ob(history3, fixed={'p0': p0, 'p1': p1}, pre='0 <= p2 < %d and 0 <= g0 < %d and 0 <= g1 < %d' % (NTHUNK, NTOGGLE, NTOGGLE),
                               name='history3_%d_%d' % (p0, p1), timeout=1800))
